@@ -269,8 +269,17 @@ def oracle_case(case, impl_lines, crash):
         if i >= len(impl_lines):
             break
         p = opline.split()
-        if p[0] == "setscale":
-            factor[int(p[1])] = int(p[2])
+        if p[0] == "setscale" and int(p[2]) > 0 and W // int(p[2]) > 0 and H // int(p[2]) > 0:
+            factor[int(p[1])] = {int(p[2])}      # (a factor that would give a zero dimension is refused)
+        if p[0] == "newfb" and prev is not None:
+            # the factors a scaled client can have had, judging from the scaled size it was given: the library
+            # does not store the factor, any of them is a legitimate choice for the new scaled screen
+            oW, oH = (prev["S"][0], prev["S"][1]) if "S" in prev else (W, H)
+            for ci, pc in enumerate(prev["clients"]):
+                if pc.get("sc") is not None:
+                    sw, sh = pc["sc"]
+                    fs = {f for f in range(1, max(oW, oH) + 2) if oW // f == sw and oH // f == sh}
+                    factor[ci] = fs or factor.get(ci, {1})
         o = C02.parse_obs(impl_lines[i])
         if o["err"] is not None:
             break
@@ -307,13 +316,15 @@ def oracle_case(case, impl_lines, crash):
                     EW, EH = W, H
                     if pc.get("sc") is not None and ok:
                         # a scaled client must be told the size of the CURRENT framebuffer divided by its factor
-                        f = factor.get(ci, 1)
-                        EW, EH = W // f, H // f
-                        if rects[0][1][-2:] != [EW, EH]:
-                            return ("scaled client %d (factor %d) is told %dx%d after '%s' although the framebuffer is "
-                                    "%dx%d (expected %dx%d): the scaled screen still belongs to the old framebuffer"
-                                    % (ci, f, rects[0][1][-2], rects[0][1][-1], opline, W, H, EW, EH),
+                        fs = factor.get(ci, {1})
+                        cands = [(W // f, H // f) if (W // f > 0 and H // f > 0) else (W, H) for f in sorted(fs)]
+                        got = tuple(rects[0][1][-2:])
+                        if got not in cands:
+                            return ("scaled client %d (factor %s) is told %dx%d after '%s' although the framebuffer is "
+                                    "%dx%d (expected %s): the scaled screen still belongs to the old framebuffer"
+                                    % (ci, sorted(fs), got[0], got[1], opline, W, H, cands),
                                     {"what": "scaled-stale-size", "scaled": True})
+                        EW, EH = got
                     if ok and kinds[0] == "N":
                         ok = rects[0][1] == [EW, EH] and pc["f"][5] == "0"
                     if ok and kinds[0] == "E":
